@@ -45,7 +45,7 @@ Proof.
 Qed.
 
 (* the category rule (one category per batch, one category per header signature) is the
-   hypothesis [cat_uniform] of C12_succeeds_partial *)
+   hypothesis [cat_uniform] of C12_category_uniform *)
 Lemma cat_rule_uniform inp : cat_rule inp -> cat_uniform inp.
 Proof.
   intros (Hp & Hs & Hx). rewrite Forall_forall in Hp, Hx. split.
@@ -507,3 +507,20 @@ Proof.
 Qed.
 
 End Succeeds.
+
+(* the executable models used in the correspondence are instances of the specification *)
+Lemma flatten_full_stable_spec A T TT hd sp ip ap inf inp :
+  flatten_full_spec A T TT hd sp ip ap inf inp (flatten_full_stable A T TT hd sp ip ap inf inp).
+Proof.
+  exists (sort_by count_ltb inp), (all_batches (run (sort_by count_ltb inp))).
+  split; [apply stable_admissible|]. split; reflexivity.
+Qed.
+
+Lemma flatten_full_hint_sound A T TT hd sp ip ap inf inp hint r :
+  flatten_full_hint A T TT hd sp ip ap inf inp hint = Some r -> flatten_full_spec A T TT hd sp ip ap inf inp r.
+Proof.
+  unfold flatten_full_hint. destruct (perm_hintb (length inp) hint && sorted_countb (apply_hint inp hint)) eqn:E; [|discriminate].
+  intros H. injection H as <-. apply andb_prop in E as [E1 E2].
+  exists (apply_hint inp hint), (all_batches (run (apply_hint inp hint))). split; [|split; reflexivity].
+  split; [now apply apply_hint_perm|now apply sorted_countb_spec].
+Qed.
